@@ -339,3 +339,88 @@ def v_uv(c, coming_from):
         c.ensure("direction_in_0_360", 0 <= d < 360)
         c.ensure_eq("direction_reproduces_the_components_u", s * spd * math.sin(math.radians(d)), u)
         c.ensure_eq("direction_reproduces_the_components_v", s * spd * math.cos(math.radians(d)), v)
+
+
+# ---------------------------------------------------------------------------------------
+# NDBC: directional spectrum from the first four Fourier coefficients
+
+
+@contract(IN + "ndbc:_construct_spectra", props=["C12"], scenarios=[{}])
+def v_ndbc_construct(c):
+    """E(f, theta) = ef * (0.5 + r1 cos(theta - a1) + r2 cos(2 (theta - a2))) * D2R / pi at every bin, and
+    on a full uniform circle of N >= 3 directions (theta_j = j*360/N) the direction integral gives back
+    the frequency spectrum: sum_j E(f, theta_j) * 360/N == ef   (Lean: WS.cos_sum_uniform_circle_zero_nat
+    for the first and second harmonic)"""
+    from engine.pyse import arrays as A, xrs as X
+    from engine.pyse.core import Sym
+    import z3
+
+    m = c.m
+    if m.symbolic:
+        nf, nd = c.int("NF", 1), c.int("ND", 3)
+        dlt = Sym(z3.RealVal(360) / z3.ToReal(nd.t))
+        tharr = A.Arr((nd,), lambda idx: dlt * idx[0], "f")
+        dirs = X.DA(tharr, dims=("dir",), coords={"dir": X.DA(tharr, dims=("dir",), name="dir")}, name="dir")
+        fa = c.array("f", (nf,), sorted_inc=True, positive=True)
+        fc = {"frequency": X.DA(fa, dims=("frequency",), name="frequency")}
+        mk = lambda nm, **kw: X.DA(c.array(nm, (nf,), **kw), dims=("frequency",), coords=fc, name=nm)
+        ef, a1, a2, r1, r2 = mk("ef", nonneg=True), mk("a1"), mk("a2"), mk("r1"), mk("r2")
+        out = c.call(ef, a1, a2, r1, r2, dirs)
+        i, j = c.index("i", nf), c.index("j", nd)
+        g = lambda d_, k: d_.at({"frequency": k})
+        th = lambda k: dlt * k
+        d2r = m.pi / 180
+        want = g(ef, i) * (0.5 + g(r1, i) * m.cos(d2r * (th(j) - g(a1, i))) + g(r2, i) * m.cos(2 * d2r * (th(j) - g(a2, i)))) * d2r / m.pi
+        c.ensure_eq("four_coefficient_reconstruction", out.at({"frequency": i, "dir": j}), want)
+        # direction integral on the full uniform circle
+        s1 = m.sigma(nd, lambda k: m.cos(d2r * (th(k) - g(a1, i))))
+        s2 = m.sigma(nd, lambda k: m.cos(2 * d2r * (th(k) - g(a2, i))))
+        c.use_lemma("cos_sum_uniform_circle_zero_nat", m.and_(s1 == 0, s2 == 0))
+        tot = m.sigma(nd, lambda k: out.at({"frequency": i, "dir": k}))
+        c.ensure_eq("direction_integral_gives_back_the_frequency_spectrum", tot * dlt, g(ef, i))
+    else:
+        import numpy as np
+        import xarray as xr
+
+        r = np.random.default_rng(c.rng.randint(0, 2**31))
+        nf, nd = c.rng.randint(1, 5), c.rng.choice([3, 4, 8, 36])
+        dirs = np.arange(nd) * 360.0 / nd
+        f = 0.05 + 0.03 * np.arange(nf)
+        mk = lambda v: xr.DataArray(v, dims=("frequency",), coords={"frequency": f})
+        ef, a1, a2, r1, r2 = mk(r.uniform(0, 5, nf)), mk(r.uniform(0, 360, nf)), mk(r.uniform(0, 360, nf)), mk(r.uniform(0, 1, nf)), mk(r.uniform(0, 1, nf))
+        out = c.call(ef, a1, a2, r1, r2, xr.DataArray(dirs, dims=("dir",), coords={"dir": dirs}))
+        tot = (out.sum("dir") * (360.0 / nd)).values
+        c.ensure_true("direction_integral_gives_back_the_frequency_spectrum", bool(np.allclose(tot, ef.values, rtol=1e-9, atol=1e-12)), f"{tot} vs {ef.values}")
+
+
+@contract(IN + "ndbc:from_ndbc", props=["C12", "C17"], scenarios=[{"directional": True}, {"directional": False}, {"directional": "missing"}], replays=4)
+def v_from_ndbc(c, directional):
+    """BOUNDED (run-time contract): 2D when the directional moments are present (integrating back to the
+    1D spectrum), 1D otherwise; wavespectra names; caller's dataset untouched"""
+    if c.m.symbolic:
+        c.ensure_true("placeholder_structural", True)
+        return
+    import numpy as np
+    import xarray as xr
+
+    r = np.random.default_rng(c.rng.randint(0, 2**31))
+    nt, nf = c.rng.randint(1, 3), c.rng.randint(2, 6)
+    f = 0.03 + 0.02 * np.arange(nf)
+    dv = {"spectral_wave_density": (("time", "frequency"), r.uniform(0, 5, (nt, nf)))}
+    if directional != "missing":
+        for nm, hi in (("mean_wave_dir", 360), ("principal_wave_dir", 360), ("wave_spectrum_r1", 1), ("wave_spectrum_r2", 1)):
+            dv[nm] = (("time", "frequency"), r.uniform(0, hi, (nt, nf)))
+    ds = xr.Dataset(dv, coords={"time": np.arange(nt), "frequency": f})
+    snap = ds.copy(deep=True)
+    out = c.call(ds, directional=(directional is not False), dd=c.rng.choice([10.0, 15.0, 45.0]))
+    c.ensure_true("input_dataset_untouched", bool(ds.identical(snap)), "caller's dataset changed")
+    e = out["efth"]
+    c.ensure_true("frequency_renamed", "freq" in e.dims and bool(np.allclose(out["freq"].values, f)), str(e.dims))
+    if directional is True:
+        c.ensure_true("two_dimensional_spectra", "dir" in e.dims, str(e.dims))
+        dd = float(out["dir"].values[1] - out["dir"].values[0])
+        c.ensure_true("direction_integral_gives_back_the_frequency_spectrum",
+                      bool(np.allclose((e.sum("dir") * dd).transpose("time", "freq").values, ds["spectral_wave_density"].values, rtol=1e-9)), "integral differs")
+    else:
+        c.ensure_true("one_dimensional_spectra_unchanged", "dir" not in e.dims and
+                      bool(np.allclose(e.transpose("time", "freq").values, ds["spectral_wave_density"].values)), str(e.dims))
